@@ -64,6 +64,35 @@ def strategy(tier):
     return strategy_(tier)
 
 
+def exhaustive(tier):
+    """Row counts beyond typical block sizes (1024 / 2048): every row of the result must equal the row computed alone."""
+    for j, (n, k, d) in enumerate([(2500, 3, 2), (3, 4100, 3)] if tier == "quick" else [(2500, 3, 2), (3, 4100, 3), (1025, 1025, 1), (5000, 2, 4)]):
+        rng = np.random.default_rng(4000 + j)
+        cell = np.exp(rng.normal(size=d))
+        yield {"kind": "large", "cell": cell, "X": rng.uniform(-30, 30, size=(n, d)) * cell, "Y": rng.uniform(-30, 30, size=(k, d)) * cell,
+               "shX": rng.integers(-5, 6, size=(n, d)), "shY": rng.integers(-5, 6, size=(k, d)), "L": rng.normal(size=(1, d, d)) + 2 * np.eye(d)}
+
+
+EXHAUSTIVE_PARTS = {"quick": ["2 fixed point sets with 2500 / 4100 rows on one side"], "thorough": ["4 fixed point sets with 1025..5000 rows"]}
+
+
+def check_large(case, ctx):
+    cell, X, Y, L = case["cell"], case["X"], case["Y"], case["L"]
+    d = X.shape[1]
+    tol = 1e-11 * (max(np.abs(X).max(), np.abs(Y).max()) + np.linalg.norm(cell))
+    with ctx.lib("periodic-large"):
+        D = ppd(X, Y, cell_length=cell)
+        M = pmd(X, Y, np.eye(d), cell_length=cell)[0]
+    Dref, _, _ = min_image_ref(X, Y, cell)
+    ctx.close("oracle(large)", D, Dref, tol, "periodic distances of %d x %d points" % (len(X), len(Y)))
+    ctx.close("mahal-identity(large)", M ** 2, Dref ** 2, 8 * tol * (Dref.max() + tol) + 1e-15 * Dref.max() ** 2, "identity-precision Mahalanobis, large input")
+    i = len(X) // 2
+    with ctx.lib("periodic-row"):
+        row = ppd(X[i:i + 1], Y, cell_length=cell)
+    ctx.close("row-independence", row[0], D[i], 0.0, "row %d computed alone vs inside the batch" % i)
+    ctx.nontrivial = True
+
+
 def min_image_ref(X, Y, cell):
     diff = X[:, None, :] - Y[None, :, :]
     frac = diff / cell
@@ -73,6 +102,9 @@ def min_image_ref(X, Y, cell):
 
 
 def check(case, ctx):
+    if case["kind"] == "large":
+        ctx.cls("kind=large")
+        return check_large(case, ctx)
     cell, X, Y, L = case["cell"], case["X"], case["Y"], case["L"]
     Xi, Yi = X, Y                      # as supplied (possibly integer-typed)
     X, Y = np.asarray(X, float), np.asarray(Y, float)
